@@ -169,8 +169,24 @@ def run_case(i, seed, tier):
     g = Gen(cs, 'names')
     rr_cfgs = lambda c: c.rr is not None
     kind = ['sweep', 'history', 'deep', 'history', 'deep', 'sweep', 'history-reopen'][i % 7]
+    if i % 35 == 4:
+        kind = 'ce-gap'
     reopen_ops = None
-    if kind == 'sweep':
+    if kind == 'ce-gap':
+        # free a continuation area in the middle of a block, then add an entry whose area is
+        # the size of the hole -2..+2 (allocator boundary)
+        cfg = Cfg(level=g.rng.choice([1, 3]), rr=g.rng.choice(['1.09', '1.10', '1.12']), xa=g.rng.random() < 0.3)
+        base = g.rng.choice([200, 215, 230, 260])
+        ops = []
+        for k in range(4):
+            ops.append({'op': 'add_fp', 'cid': 300 + k, 'length': 5, 'iso_path': '/G%d.;1' % k, 'rr_name': ('g%d-' % k) + 'x' * (base + 7 * k)})
+        ops.append({'op': 'rm_file', 'iso_path': '/G%d.;1' % g.rng.choice([1, 2])})
+        removed_len = len(ops[int(ops[-1]['iso_path'][2])]['rr_name'])
+        delta = [-2, -1, 0, 1, 2][(i // 35 + seed) % 5]
+        ops.append({'op': 'add_fp', 'cid': 310, 'length': 5, 'iso_path': '/NEW.;1', 'rr_name': 'n' * (removed_len + delta)})
+        if g.rng.random() < 0.5:
+            ops.append({'op': 'add_fp', 'cid': 311, 'length': 5, 'iso_path': '/NEW2.;1', 'rr_name': 'm' * (removed_len - 30)})
+    elif kind == 'sweep':
         cfg = Cfg(level=[1, 3, 4][(i // 7) % 3], rr=['1.09', '1.10', '1.12'][(i // 21) % 3], xa=bool((i // 63) % 2), joliet=None, udf=False)
         ops = sweep_case(i // 7 + seed * 31, cfg)
         # refusals (e.g. continuation too long) are dropped by replaying through History
